@@ -1,6 +1,6 @@
 From Coq Require Import ZArith List Bool Reals Lra.
 From Flocq Require Import Core BinarySingleNaN.
-Require Import GV.FloatBase GV.FloatLemmas GV.AngleM GV.AngleProofs GV.GeonumM GV.GeonumProofs GV.NewProofs GV.CtorProofs.
+Require Import GV.FloatBase GV.FloatLemmas GV.AngleM GV.AngleProofs GV.GeonumM GV.GeonumProofs GV.NewProofs GV.CtorProofs GV.PiBounds GV.TrigProofs GV.DotValue GV.DirProofs.
 Open Scope R_scope.
 Require Import GV.Properties.C07.
 Check C07_angle_steps : forall a, canonp (rem a) ->
@@ -45,3 +45,10 @@ Print Assumptions C07_copy_blade.
 Check C07_grade_angle_range : forall a, canonp (rem a) ->
   fin (grade_angle a) /\ 0 <= R_ (grade_angle a) < 4 * R_ Q.
 Print Assumptions C07_grade_angle_range.
+Check C07_direction : forall a a' k, steps_to a a' k -> dirR a' = dirR a + IZR k * (Rtrigo1.PI / 2).
+Print Assumptions C07_direction.
+Check C07_half_turns : forall a, canonp (rem a) ->
+  dirR (dual a) = dirR a + Rtrigo1.PI /\ dirR (undual a) = dirR a + Rtrigo1.PI /\
+  dirR (negate a) = dirR a + Rtrigo1.PI /\ dirR (conjugate a) = dirR a + Rtrigo1.PI /\
+  cos (dirR (dual a)) = - cos (dirR a) /\ sin (dirR (dual a)) = - sin (dirR a).
+Print Assumptions C07_half_turns.
